@@ -688,9 +688,16 @@ func (c *Ctx) checkIDParse(rel, E string) {
 				if e.Kind == EvCall && e.Callee != nil && e.Callee.Name() == "IDParse" && len(e.Args) == 1 && e.Args[0].Key() == "$"+fn.Params[0].Name() {
 					p = e
 				}
-				if e.Kind == EvCall && e.callName() == "time.Unix" {
+				if e.Kind == EvCall && (e.callName() == "time.Unix" || e.callName() == "time.UnixMilli") {
 					u = e
 				}
+			}
+			// time.UnixMilli(ms) is by definition time.Unix(ms/1000, (ms%1000)*1e6)
+			if p != nil && u != nil && u.callName() == "time.UnixMilli" && p.Res.Kind == KTuple && len(u.Args) == 1 {
+				if u.Args[0].Key() != p.Res.Args[0].Key() || t.Ret[1].Key() != p.Res.Args[1].Key() || t.Ret[2].Key() != p.Res.Args[2].Key() {
+					good = false
+				}
+				continue
 			}
 			if p == nil || u == nil || p.Res.Kind != KTuple || len(u.Args) != 2 {
 				good = false
